@@ -136,6 +136,76 @@ theorem C18_total (cfg : CsvCfg) (ncols : Nat) (rows : List (List Cell)) (ids : 
   rw [this]
   exact_mod_cast hl
 
+/-- grouping values by a key whose values all lie in a duplicate-free list of keys loses nothing -/
+theorem sum_by_key_gen {β κ} [DecidableEq κ] (keys : List κ) (hn : keys.Nodup) (bs : List β) (key : β → κ) (w : β → Rat)
+    (hk : ∀ b ∈ bs, key b ∈ keys) :
+    rsum (keys.map (fun v => rsum ((bs.filter (fun b => key b = v)).map w))) = rsum (bs.map w) := by
+  induction bs with
+  | nil => simp [rsum_replicate]
+  | cons b rest ih =>
+    have ih' := ih (fun b' hb' => hk b' (by simp [hb']))
+    have hsplit : ∀ v, rsum (((b :: rest).filter (fun b => key b = v)).map w) =
+        (if key b = v then w b else 0) + rsum ((rest.filter (fun b => key b = v)).map w) := by
+      intro v
+      by_cases h : key b = v
+      · simp [h, List.filter_cons]
+      · simp [h, List.filter_cons]
+    simp only [hsplit]
+    rw [rsum_map_add, ih', List.map_cons, rsum_cons]
+    congr 1
+    have hb := hk b (by simp)
+    clear ih ih' hsplit hk
+    induction keys with
+    | nil => simp at hb
+    | cons v vs ihv =>
+      rw [List.nodup_cons] at hn
+      simp only [List.map_cons, rsum_cons]
+      rcases List.mem_cons.1 hb with h | h
+      · have : ∀ v' ∈ vs, (if key b = v' then w b else 0) = 0 := by
+          intro v' hv'
+          have : key b ≠ v' := fun e => hn.1 (h ▸ e ▸ hv')
+          simp [this]
+        rw [List.map_congr_left this]
+        simp [h, rsum_replicate]
+      · have hne : key b ≠ v := fun e => hn.1 (e ▸ h)
+        simp only [hne, if_false, zero_add]
+        exact ihv hn.2 h
+
+/-- **With a weight column the total weight is the sum of the column**: every row's weight is counted
+exactly once, on the ballot of its pattern. -/
+theorem C18_total_weighted (cfg : CsvCfg) (ncols : Nat) (rows : List (List Cell)) (ids : List Cell)
+    (weights : List Rat) (bs : List CsvBallot) (hw : cfg.weightCol.isSome = true)
+    (hlen : ids.length = rows.length ∧ weights.length = rows.length)
+    (h : loadTable cfg ncols rows ids weights = .ok bs) :
+    rsum (bs.map (·.weight)) = rsum weights := by
+  unfold loadTable at h
+  split at h; · cases h
+  split at h; · cases h
+  split at h; · cases h
+  injection h with h
+  subst h
+  simp only [List.map_map, Function.comp_def, hw, if_true]
+  set cols := selectCols cfg ncols
+  set tagged := rows.zip (ids.zip weights)
+  have hkeys : ∀ t ∈ tagged, patternOf cols t.1 ∈ distinctPatterns (rows.map (patternOf cols)) := by
+    intro t ht
+    rw [mem_distinctPatterns]
+    exact List.mem_map_of_mem (List.of_mem_zip ht).1
+  have := sum_by_key_gen (distinctPatterns (rows.map (patternOf cols))) (distinctPatterns_nodup _) tagged
+    (fun t => patternOf cols t.1) (fun t => t.2.2) hkeys
+  rw [this]
+  -- the weights of the zipped rows are the weight column
+  have : tagged.map (fun t => t.2.2) = weights := by
+    have h1 : tagged.map (·.2) = ids.zip weights := by
+      apply List.map_snd_zip
+      simp [hlen.1, hlen.2]
+    have h2 : (ids.zip weights).map (·.2) = weights := by
+      apply List.map_snd_zip
+      simp [hlen.1, hlen.2]
+    rw [← h2, ← h1, List.map_map]
+    rfl
+  rw [this]
+
 /-- **Documented rejections**: empty data, a blank voter id, a duplicated voter id. -/
 theorem C18_errors (cfg : CsvCfg) (ncols : Nat) (rows : List (List Cell)) (ids : List Cell) (weights : List Rat) :
     (rows = [] → loadTable cfg ncols rows ids weights = .raised .emptyData) ∧
